@@ -98,10 +98,23 @@ var (
 	// several failed and successful closers need 11 and more symbols).
 	Emph4 = sp("Emph4", "emphasis: * _ letter space", "*", "_", "a", " ")
 	Emph3 = sp("Emph3", "emphasis: * _ letter", "*", "_", "a")
+	// XAuto: autolinks (URI and e-mail) and near misses, with characters that
+	// NormalizeURI must percent-encode and characters that end an autolink.
+	XAuto = sp("X-auto", "URI and e-mail autolinks with characters that need percent-encoding or escaping",
+		"<", ">", "a", "@a>", "ab:", ".", ":", "^", "%", "2", "-", " ", "&", "\\", "\"")
+	// XDRuns: whole delimiter runs with their flanking context built in, so that
+	// every token pushes exactly one entry of a known class (opener, closer, both;
+	// length 1, 2, 3; star or underscore) on the delimiter stack: stacks with
+	// several failed searches, deletions and re-searches are reached in 5-7 tokens.
+	// The prefix and suffix letters keep the string one paragraph that neither
+	// starts nor ends with a space.
+	XDRuns = Space{Name: "X-druns", Doc: "delimiter runs with fixed flanking context: openers, closers and both-flanking runs of length 1-3 of * and _",
+		Tokens: []string{" *a", " **a", " ***a", "a* ", "a** ", "a*** ", "a*a", "a**a", "a***a", " _a", " __a", "a_ ", "a__ ", "._.", ".__."},
+		Prefix: "x", Suffix: "x"}
 )
 
 // All lists every declared space (for the start-up self test).
-var All = []Space{B, I, L, XHead, XRef, XLink, XCode, XHTML, XEmph, XList, XNul, XNulRef, XPhrase, XInfo, XRefHead, XRefTail, XMl, XDefs, XEol, Inj, XEnt, XWs, XNest, XMlRef, Emph5, Emph4, Emph3}
+var All = []Space{B, I, L, XHead, XRef, XLink, XCode, XHTML, XEmph, XList, XNul, XNulRef, XPhrase, XInfo, XRefHead, XRefTail, XMl, XDefs, XEol, Inj, XEnt, XWs, XNest, XMlRef, Emph5, Emph4, Emph3, XDRuns, XAuto}
 
 // ByName finds a space.
 func ByName(name string) (Space, bool) {
